@@ -283,3 +283,33 @@ Theorem C12_trees_dirty_observable :
   snd (Api.run KAlpha Api.init (ops_of 1 ex_evs1)) = [OUnit; OUnit; OAbsent].
 Proof. exact trees_dirty_observable. Qed.
 Print Assumptions C12_trees_dirty_observable.
+
+(* ---- node.go regenerated: clear() of the four node types and the shrinking deleteChild of a node256,
+   as translated from the current source on every run (Gen/NodeGen.v), are the pool model's ---- *)
+From GoArt Require Import Model.GoNode Gen.NodeGen Proofs.TranslateNodeFacts.
+
+Theorem C12_regenerated_node4_clear : forall (C : Type) h keys (ch : list (option C)),
+  g_node4_clear (X4 h keys ch) = Pool.xclear (X4 h keys ch).
+Proof. exact @gen_node4_clear_eq. Qed.
+Print Assumptions C12_regenerated_node4_clear.
+
+Theorem C12_regenerated_node16_clear : forall (C : Type) h keys (ch : list (option C)),
+  g_node16_clear (X16 h keys ch) = Pool.xclear (X16 h keys ch).
+Proof. exact @gen_node16_clear_eq. Qed.
+Print Assumptions C12_regenerated_node16_clear.
+
+Theorem C12_regenerated_node48_clear : forall (C : Type) h idx (ch : list (option C)),
+  g_node48_clear (X48 h idx ch) = Pool.xclear (X48 h idx ch).
+Proof. exact @gen_node48_clear_eq. Qed.
+Print Assumptions C12_regenerated_node48_clear.
+
+Theorem C12_regenerated_node256_clear : forall (C : Type) h (ch : list (option C)),
+  g_node256_clear (X256 h ch) = Pool.xclear (X256 h ch).
+Proof. exact @gen_node256_clear_eq. Qed.
+Print Assumptions C12_regenerated_node256_clear.
+
+Theorem C12_regenerated_node256_deleteChild : forall (C : Type) h (ch : list (option C)) b os p,
+  Pool.shape_ok (X256 h ch) = true -> pool_shapes p ->
+  g_node256_deleteChild (X256 h ch) b os p = Pool.xdel256 h ch b os p.
+Proof. exact @gen_node256_deleteChild_eq. Qed.
+Print Assumptions C12_regenerated_node256_deleteChild.
